@@ -260,24 +260,26 @@ func scalarToken(tok []byte) (*Node, error) {
 			if err != nil {
 				return nil, fmt.Errorf("integer %q: %v", s, err)
 			}
-			return &Node{Kind: KInt, I: v}, nil
+			return &Node{Kind: KInt, I: v, NumText: s}, nil
 		}
 		v, err := strconv.ParseUint(s, 10, 64)
 		if err != nil {
 			return nil, fmt.Errorf("integer %q: %v", s, err)
 		}
 		if v <= math.MaxInt64 {
-			return &Node{Kind: KInt, I: int64(v)}, nil
+			return &Node{Kind: KInt, I: int64(v), NumText: s}, nil
 		}
-		return &Node{Kind: KUint, U: v}, nil
+		return &Node{Kind: KUint, U: v, NumText: s}, nil
 	}
-	// a double is printed with an exponent (strconv 'E' format)
-	if strings.IndexByte(s, 'E') < 0 {
-		return nil, fmt.Errorf("scalar %q is neither a literal, an integer nor an E-format double", s)
+	// a double: any decimal number text with a fraction and / or an exponent
+	// (the pinned library prints strconv's 'E' format; 0.5, 5e-1 and 5E-01
+	// denote the same value and the property does not pick one)
+	if !strings.ContainsAny(s, ".eE") {
+		return nil, fmt.Errorf("scalar %q is neither a literal, an integer nor a decimal number", s)
 	}
 	for i := 0; i < len(s); i++ {
 		c := s[i]
-		if !(c >= '0' && c <= '9') && c != '-' && c != '+' && c != '.' && c != 'E' {
+		if !(c >= '0' && c <= '9') && c != '-' && c != '+' && c != '.' && c != 'E' && c != 'e' {
 			return nil, fmt.Errorf("bad double %q", s)
 		}
 	}
@@ -647,7 +649,9 @@ func (d *differ) diff(w, g *Node) {
 		d.add(w, g, "kind", "no value decoded, want "+describe(w))
 		return
 	}
-	if w.Kind != g.Kind && !(isInt(w.Kind) && isInt(g.Kind)) {
+	// (a double printed in integer form — 3 for 3.0, -0 — is the same number)
+	dblAsInt := w.Kind == KDouble && isInt(g.Kind) && g.NumText != ""
+	if w.Kind != g.Kind && !(isInt(w.Kind) && isInt(g.Kind)) && !dblAsInt {
 		d.add(w, g, "kind", fmt.Sprintf("want %s, got %s", describe(w), describe(g)))
 		return
 	}
@@ -660,9 +664,16 @@ func (d *differ) diff(w, g *Node) {
 			d.add(w, g, "value", fmt.Sprintf("integer want %s got %s", intText(w), intText(g)))
 		}
 	case KDouble:
-		if math.Float64bits(w.F) != math.Float64bits(g.F) {
+		gf := g.F
+		if dblAsInt {
+			var err error
+			if gf, err = strconv.ParseFloat(g.NumText, 64); err != nil {
+				gf = math.NaN()
+			}
+		}
+		if math.Float64bits(w.F) != math.Float64bits(gf) {
 			d.add(w, g, "value", fmt.Sprintf("double want bits %016x (%s) got %016x (%s)", math.Float64bits(w.F),
-				strconv.FormatFloat(w.F, 'E', -1, 64), math.Float64bits(g.F), strconv.FormatFloat(g.F, 'E', -1, 64)))
+				strconv.FormatFloat(w.F, 'E', -1, 64), math.Float64bits(gf), strconv.FormatFloat(gf, 'E', -1, 64)))
 		}
 	case KString:
 		if !bytes.Equal(w.S, g.S) {
